@@ -18,11 +18,15 @@ CONSTANTS
   CxxSize <- McSize
   CxxFixedId <- McFixedId
   CxxName <- McName
+  CxxClassK <- McClassK
+  CxxClassT <- McClassT
+  Vias = {"tmpl", "value", "default"}
+  MetaAsk = {"genptr", "mval"}
   TraitsRegs = {"genptr", "mval"}
   GenericPtr = "genptr"
   BasicPtr = "mval"
-  PayTypes = {"tracked", "tptr"}
-  WrapTypes = {"tracked", "tptr"}
+  PayTypes = {"tracked"}
+  WrapTypes = {"tptr"}
   Slots = {1, 2}
   Vals = {1}
   PropBuf = 8
